@@ -218,6 +218,7 @@ def numeric_coercion(res, model):
     formula_check(res, model, "utils.application.to_decimal", REF_TO_DECIMAL, "to_decimal(x) = Decimal(str(x))")
     formula_check(res, model, "utils.application.object_to_decimal", REF_OBJECT_TO_DECIMAL,
                   "object_to_decimal: floats and ints through Decimal(str(x)), everything else unchanged")
+    param_formatter(res, model)
     return len(res.obligations) - n0
 
 
@@ -340,3 +341,93 @@ def gate_coverage(res, model, cls_name: str, fields, why: str, rule="R-PHASE", f
                      f"`has_update` is not raised, so the bar loop does not refresh the market status after the operation ({why})")
     res.floor(f"gate_coverage_{cls_name}", n, floor)
     return n
+
+
+# ---- the argument formatter ------------------------------------------------------------------------------------------
+REF_PARAM_FORMATTER = '''
+def wrapper_func(*args, **kwargs):
+    converted = ()
+    for a in args:
+        converted += (object_to_decimal(a),)
+    for name, value in kwargs.items():
+        kwargs[name] = object_to_decimal(value)
+    return func(*converted, **kwargs)
+'''
+
+
+def param_formatter(res, model, rule="R-SHAPE"):
+    """float_param_formatter's wrapper (shape rule; the accumulation of a tuple of piecewise conversions is outside the
+    evaluator's language): the wrapped operation is called exactly once, unconditionally, with a starred positional
+    block and the keyword block; the positional block is built ONLY by appending `object_to_decimal(<loop variable over
+    args>)`, every keyword value is replaced by `object_to_decimal(value)`; the call's result is returned; nothing else is
+    called and nothing else is stored."""
+    import ast as _ast
+    from ..model import AnalysisError
+    wf = model.func("utils.application.float_param_formatter")
+    inner = [n for n in wf.node.body if isinstance(n, _ast.FunctionDef)]
+    if len(inner) != 1 or not wf.params:
+        raise AnalysisError("float_param_formatter: wrapper function not found")
+    w, fn = inner[0], wf.params[0]
+    va, kw = (w.args.vararg.arg if w.args.vararg else None), (w.args.kwarg.arg if w.args.kwarg else None)
+    problems = []
+    calls = [n for st in w.body for n in _ast.walk(st) if isinstance(n, _ast.Call)]      # (the @wraps decorator is not part of the body)
+    fcalls = [c for c in calls if isinstance(c.func, _ast.Name) and c.func.id == fn]
+    conv = [c for c in calls if isinstance(c.func, _ast.Name) and c.func.id == "object_to_decimal"]
+    other = [c for c in calls if c not in fcalls and c not in conv and not (isinstance(c.func, _ast.Attribute) and c.func.attr in ("items", "keys"))
+             and not (isinstance(c.func, _ast.Name) and c.func.id in ("tuple", "list"))]
+    if len(fcalls) != 1:
+        problems.append(f"the wrapped function is called {len(fcalls)} times")
+    else:
+        c = fcalls[0]
+        star = [a for a in c.args if isinstance(a, _ast.Starred)]
+        if len(c.args) != 1 or len(star) != 1 or not any(k.arg is None and isinstance(k.value, _ast.Name) and k.value.id == kw for k in c.keywords) \
+                or any(k.arg is not None for k in c.keywords):
+            problems.append("the wrapped function is not called as func(*converted, **kwargs)")
+        par = getattr(c, "_parent", None)
+        if not isinstance(par, _ast.Return):
+            problems.append("the result of the wrapped function is not returned as it is")
+        p = par
+        while p is not None and p is not w:
+            if isinstance(p, (_ast.If, _ast.For, _ast.While, _ast.Try, _ast.With)):
+                problems.append("the call of the wrapped function is conditional / inside a loop or handler")
+                break
+            p = getattr(p, "_parent", None)
+    if len(conv) < 2:
+        problems.append("not both argument blocks are converted by object_to_decimal")
+    for c in conv:
+        if not (len(c.args) == 1 and isinstance(c.args[0], _ast.Name) and not c.keywords):
+            problems.append(f"object_to_decimal is applied to `{_ast.unparse(c.args[0]) if c.args else ''}`, not to the plain argument")
+        par = getattr(c, "_parent", None)
+        if not isinstance(par, (_ast.Tuple, _ast.Assign, _ast.AugAssign, _ast.List, _ast.GeneratorExp, _ast.ListComp)):
+            problems.append(f"the converted value is transformed again: `{_ast.unparse(par)[:50]}`")
+    if other:
+        problems.append(f"other calls in the wrapper: {[_ast.unparse(c)[:30] for c in other][:3]}")
+    loops = [n for n in _ast.walk(w) if isinstance(n, _ast.For)]
+    its = {_ast.unparse(l.iter) for l in loops}
+    if not ({va} & its) or not ({f"{kw}.items()", kw, f"{kw}.keys()"} & its):
+        problems.append("the conversion does not loop over all positional and all keyword arguments")
+    if any(isinstance(n, (_ast.If, _ast.IfExp, _ast.Break, _ast.Continue)) for n in _ast.walk(w)):
+        problems.append("the wrapper distinguishes cases (some arguments could be skipped)")
+    ok = not problems
+    res.ob(rule, "float_param_formatter: one unconditional call of the wrapped operation with every argument coerced by object_to_decimal",
+           wf.loc(), ok=ok, detail="; ".join(problems)[:300])
+    if not ok:
+        res.find(rule, "utils.application.float_param_formatter", "argument formatter is not the plain coercion of every argument", wf.loc(),
+                 "float_param_formatter wraps the user operations of every market; its wrapper no longer calls the operation exactly once "
+                 "with each positional and keyword argument passed through object_to_decimal unchanged: " + "; ".join(problems))
+    return 1
+
+
+def _param_formatter_by_identity(res, model, rule="R-FORMULA"):
+    """float_param_formatter's wrapper: the wrapped operation is called once with EVERY positional and keyword argument
+    passed through object_to_decimal (nothing dropped, reordered, rounded or otherwise changed) and its result returned."""
+    import ast as _ast
+    from ..model import AnalysisError
+    from ..rules.formula import nested_func
+    wf = model.func("utils.application.float_param_formatter")
+    inner = [n for n in _ast.walk(wf.node) if isinstance(n, _ast.FunctionDef) and n is not wf.node]
+    if len(inner) != 1:
+        raise AnalysisError("float_param_formatter: wrapper function not found")
+    return effects_check(res, model, nested_func(model, "utils.application.float_param_formatter", inner[0].name), REF_PARAM_FORMATTER,
+                         "argument formatter: one call of the wrapped operation with every argument coerced by object_to_decimal",
+                         [wf.params[0] if wf.params else "func"], opaque=["object_to_decimal"], ordered=True, rule=rule)
